@@ -766,3 +766,139 @@ def result_claims(facts):
             else:
                 out.append(ob("theta.result-claim", k2, paths[0]["loc"], "discharged", "every filling path passes the trim to the nominal size", fn["qname"]))
     return out
+
+
+def inferred_emptiness(facts):
+    """results built with compact_sketch(is_empty, ordered, seed_hash, theta, entries): 'empty' means that no data was ever seen, which
+    is not the same as retaining no entries.  The flag may be copied from a source's own flag, but it may be INFERRED from
+    `entries.empty()` only together with theta == MAX (not in estimation mode): an estimation-mode result without entries still
+    carries theta < 1, and consumers skip empty operands (a union would ignore its theta, an intersection would return exact
+    emptiness).  Truth table over S = a source's empty flag, E = no entries, M = estimation mode on the flag expression (local
+    flag variables are expanded into their guarded definitions): flag && !S  =>  !M."""
+    import itertools
+    fns = functions_by(facts, ["theta", "tuple"])
+    out = []
+    n = 0
+
+    def atom(e):
+        e = strip_all(e)
+        k = e.get("k")
+        if k == "Call" and e.get("cname") == "is_empty":
+            return "S"
+        if k == "Member" and e.get("f") == "is_empty_":
+            return "S"
+        if k == "Call" and e.get("cname") == "empty":
+            return "E"
+        if k == "Call" and e.get("cname") == "is_estimation_mode":
+            return "M"
+        if k == "Bin" and e.get("op") in ("==", "!=", "<") and ("MAX_THETA" in txt(e) or "9223372036854775807" in txt(e)):
+            return {"==": "!M", "!=": "M", "<": "M"}[e["op"]]
+        return None
+
+    def ev(e, env, defs, depth=0):
+        e = strip_all(e)
+        a = atom(e)
+        if a:
+            return (not env["M"]) if a == "!M" else env[a]
+        k = e.get("k")
+        if k == "Bool":
+            return bool(e.get("b", e.get("v")))
+        if k == "Bin" and e.get("op") in ("&&", "||"):
+            x, y = ev(e["l"], env, defs, depth + 1), ev(e["r"], env, defs, depth + 1)
+            if e["op"] == "&&":
+                return False if (x is False or y is False) else (True if (x is True and y is True) else None)
+            return True if (x is True or y is True) else (False if (x is False and y is False) else None)
+        if k == "Un" and e.get("op") == "!":
+            x = ev(e["e"], env, defs, depth + 1)
+            return None if x is None else (not x)
+        if k == "Ref" and e.get("dk") == "local" and e.get("d") in defs and depth < 4:
+            val = None
+            for guard, rhs in defs[e["d"]]:
+                g = True if guard is None else ev(guard, env, defs, depth + 1)
+                r = ev(rhs, env, defs, depth + 1)
+                if g is None or r is None:
+                    return None
+                if g:
+                    val = r
+            return val
+        if k == "Ref" and e.get("dk") == "param" and (e.get("t") or "") == "bool":
+            return env.get("S")  # a flag handed in by the caller counts as a source flag
+        return None
+    for pat, fn in sorted(fns.items()):
+        if fn["name"].startswith("deserialize"):
+            continue  # readers take the flag from the image
+        cons = []
+        guards_of = {}
+
+        def cv(x, ps):
+            if x.get("k") == "Construct" and len(x.get("args", [])) == 5 and any(t in (x.get("t") or "") for t in ("compact_theta_sketch_alloc", "compact_tuple_sketch")) and (strip_all(x["args"][0]).get("t") or "bool").replace("const ", "") == "bool":
+                cons.append(x)
+                gs = []
+                chain = list(ps) + [x]
+                for i, p_ in enumerate(chain[:-1]):
+                    if p_.get("k") == "If":
+                        nxt = chain[i + 1]
+                        inthen = False
+                        walk(p_.get("t"), lambda y: None)
+                        found = [False]
+                        walk(p_.get("t"), lambda y: found.__setitem__(0, True) if y is x else None)
+                        if found[0]:
+                            gs.append(p_["c"])
+                guards_of[id(x)] = gs
+        walkp(fn["body"], cv)
+        if not cons:
+            continue
+        # guarded definitions of bool locals (top-level statements only)
+        defs = {}
+        for s in stmts_of(fn["body"]):
+            if s.get("k") == "Decl":
+                for v in s.get("vars", []):
+                    if (v.get("t") or "").replace("const ", "") == "bool" and v.get("init") is not None:
+                        defs.setdefault(v["d"], []).append((None, v["init"]))
+            if s.get("k") == "If" and s.get("e") is None:
+                for b in stmts_of(s["t"]):
+                    if b.get("k") == "Expr":
+                        a = strip(b["e"])
+                        if a.get("k") == "Assign" and a.get("op") == "=" and strip_all(a["l"]).get("k") == "Ref":
+                            defs.setdefault(strip_all(a["l"])["d"], []).append((s["c"], a["r"]))
+        for j, c in enumerate(cons):
+            flag = c["args"][0]
+            uses_E = []
+            walk(flag, lambda x: uses_E.append(x) if atom(x) == "E" else None)
+            expanded = []
+            walk(flag, lambda x: expanded.append(x) if x.get("k") == "Ref" and x.get("d") in defs else None)
+            for x in expanded:
+                for g, r in defs[x["d"]]:
+                    walk(r, lambda y: uses_E.append(y) if atom(y) == "E" else None)
+                    if g is not None:
+                        walk(g, lambda y: uses_E.append(y) if atom(y) == "E" else None)
+            n += 1
+            key = "%s:result#%d:inferred-emptiness" % (short(fn["patq"]), j)
+            bad = None
+            undecided = False
+            for S, E, M in itertools.product((False, True), repeat=3):
+                env = {"S": S, "E": E, "M": M}
+                v = ev(flag, env, defs)
+                if v is None:
+                    undecided = True
+                    break
+                gv = [ev(g, env, defs) for g in guards_of.get(id(c), [])]
+                if any(g is False for g in gv):
+                    continue  # this assignment does not reach the construction
+                if any(g is None for g in gv) and v:
+                    # reached under a condition we cannot evaluate: only a flag that depends on E can be judged
+                    if not uses_E:
+                        undecided = True
+                        break
+                if v and not S and M:
+                    bad = "no source flag set, entries %s, estimation mode: the result is flagged empty" % ("empty" if E else "present")
+                    break
+            if undecided:
+                out.append(ob("theta.empty-flag", key, c["loc"], "info", "empty flag `%s` is not a function of source flags / entries / theta (forwarded value)" % txt(flag)[:60], fn["qname"]))
+            elif bad:
+                out.append(ob("theta.empty-flag", key, c["loc"], "violated", "%s (flag `%s`): 'no retained entries' was taken for 'never saw data' although theta < 1 - set operations skip empty operands, so the result's theta is ignored by a union and an intersection with it returns exact emptiness" % (bad, txt(flag)[:70]), fn["qname"]))
+            else:
+                out.append(ob("theta.empty-flag", key, c["loc"], "discharged", "flag `%s`: emptiness is copied from a source or inferred from `no entries` only when theta == MAX" % txt(flag)[:60], fn["qname"]))
+    if n < 4:
+        out.append(ob("theta.empty-flag", "anchor", "", "unrecognised", "only %d result constructions found" % n, ""))
+    return out
